@@ -12,6 +12,21 @@ CHECKS = {
         design='5/C20'),
 }
 
+CHECKS.update({
+    'C01': dict(
+        text='The grammar derivation machine (HplGrammar.tla) is explored exhaustively by TLC up to a token bound for expression, predicate and property start symbols; every complete derivation (one implementation test per terminal state) is rendered in several layouts, parsed by the packaged and by the source-built parser, and the trace spec T_C01 compares the observed tree with the tree the grammar assigns (Ast(cst)) and requires all layouts/parsers of one sentence to agree; token mutants outside the permissive bounded language must be rejected.',
+        note='Bounded: token length and alphabet of the enumerated languages (listed in the evidence); trusts the grammar model (one production per Lark rule alternative, cross-validated against Lark on the accept side).',
+        technique='TLC state-graph enumeration of the grammar machine + trace validation (T_C01)', design='5/C01'),
+    'C03': dict(
+        text='Every AST obtained from the parser on the enumerated languages and from every rewriting function (depth <= 2 compositions) is projected field by field and TLC evaluates the well-typedness invariant HplAst!WT clause by clause on every node; the declared operator/function tables of the implementation are compared with HplTypes.',
+        note='Bounded by the enumerated languages; WT uses the weak reading (compatibility) for bound-variable element types.',
+        technique='trace validation of recorded ASTs against the WT invariant (T_C03) over TLC-generated inputs', design='5/C03'),
+    'C15': dict(
+        text='For every node of every AST of the enumerated corpus the answers of external_references, contains_reference, contains_self_reference, contains_definition, aliases, the own-field check and the iterate() order are recorded and TLC recomputes each with the HplAst operators on the projected tree (projection walks attrs fields, not children()).',
+        note='Bounded by the enumerated languages; the sibling order of the two events of a pattern is accepted in either order.',
+        technique='trace validation of recorded query answers against HplAst (T_C15) over TLC-generated inputs', design='5/C15'),
+})
+
 REASON_PENDING = 'check not built yet in this session (planned in DESIGN.md section 5); not claimed until its machinery exists'
 
 
